@@ -9,6 +9,8 @@ CONSTANTS
   TearDown = FALSE
   ReHandshakes = 0
   IgnoreReHandshakeWhileOpen = FALSE
+  SplitTicks = FALSE
+  NegativeElapsedIsDue = FALSE
 INVARIANTS Reach_BothRotatedEqually
 VIEW View
 CONSTRAINT Bound
